@@ -231,38 +231,41 @@ func c13Gate(c *Ctx) {
 	lim := vFieldLoad("syncResult.limited", nil)
 	end := vFieldLoad("syncResult.syncedToWALEnd", nil)
 	synced := vFieldLoad("syncResult.synced", nil)
-	type cond struct {
-		name  string
-		match func(Fact) bool
+	// gate of syncLocked: once verifyAndSync succeeded, a success return that
+	// bypasses the policy call is reachable only through an edge on which the
+	// run condition is known to be false
+	vs := callsTo(sl, nameIs("(*ls.DB).verifyAndSyncWithExecutor"))
+	ks := callSitesV(sl, nameIs("(*ls.DB).checkpointIfNeeded"))
+	c.floor(rule, len(vs), 1, "verifyAndSyncWithExecutor call in syncLocked")
+	c.floor(rule, len(ks), 1, "checkpointIfNeeded call in syncLocked")
+	avoid := map[*ssa.BasicBlock]bool{}
+	for _, k := range ks {
+		avoid[k.At().Block()] = true
 	}
-	conds := []cond{
-		{"!result.limited", func(f Fact) bool { return f.Op == token.ILLEGAL && !f.Truth && lim(f.L) }},
-		{"result.syncedToWALEnd", func(f Fact) bool { return f.Op == token.ILLEGAL && f.Truth && end(f.L) }},
+	runConds := []struct {
+		name string
+		neg  FP
+	}{
+		{"!result.limited", truthFact(lim, true, "result.limited")},
+		{"result.syncedToWALEnd", truthFact(end, false, "!result.syncedToWALEnd")},
+		{"the WAL exceeds the truncate threshold", truthFact(vCall("(*ls.DB).exceedsTruncateThreshold", nil, nil), false, "!exceedsTruncateThreshold")},
 	}
-	// gate of syncLocked
-	for _, k := range callsTo(sl, nameIs("(*ls.DB).checkpointIfNeeded")) {
-		// the block where the gate decision lands: walk back from the call's block through straight-line predecessors
-		gate := k.Block()
-		for len(gate.Preds) == 1 && len(gate.Preds[0].Succs) == 1 {
-			gate = gate.Preds[0]
-		}
-		facts := edgeFactsInto(gate)
-		for _, cd := range conds {
-			ok := false
-			for _, f := range facts {
-				if cd.match(f) {
-					ok = true
+	for _, v := range vs {
+		for _, rc := range runConds {
+			neg := factEdges(sl, rc.neg)
+			r := reachableAvoiding(sl, v.Block(), neg, avoid)
+			bad := len(neg) == 0
+			for _, ret := range successReturns(sl) {
+				if r[ret.Block()] && !avoid[ret.Block()] {
+					bad = true
 				}
 			}
-			c.check(ok, rule, fnName(sl)+": checkpointIfNeeded runs when "+cd.name, c.pos(k), "an edge carrying this fact enters the policy call", "the checkpoint policy is skipped for a sync that "+cd.name+": DB.Sync stops looping on that condition, so nobody runs the policy and the WAL grows to the emergency threshold")
-		}
-		okT := false
-		for _, f := range facts {
-			if f.Op == token.ILLEGAL && f.Truth && vCall("(*ls.DB).exceedsTruncateThreshold", nil, nil)(f.L) {
-				okT = true
+			why := "the checkpoint policy is skipped for a sync where " + rc.name + ": DB.Sync stops looping on that condition, so nobody runs the policy and the WAL grows to the emergency threshold"
+			if rc.name == "the WAL exceeds the truncate threshold" {
+				why = "the emergency threshold is not honoured while syncs are chunk-limited"
 			}
+			c.check(!bad, rule, fnName(sl)+": checkpointIfNeeded runs when "+rc.name, c.pos(v), "after a successful verifyAndSync no success return bypasses the policy call unless "+rc.neg.Desc, why)
 		}
-		c.check(okT, rule, fnName(sl)+": checkpointIfNeeded also runs mid catch-up above the truncate threshold", c.pos(k), "edge found", "the emergency threshold is not honoured while syncs are chunk-limited")
 	}
 	// DB.Sync: returns nil (stops) only under !synced, !limited or syncedToWALEnd; loops otherwise
 	for _, r := range successReturns(sy) {
@@ -326,7 +329,7 @@ func runC06(c *Ctx) {
 					}
 				}
 			}
-			c.floor(rule2, nApp, 2, "appends to the reader list")
+			c.floor(rule2, nApp, 1, "appends to the reader list")
 			bad := false
 			if l != nil {
 				for i, s := range l.Header.Succs {
@@ -378,7 +381,7 @@ func runC06(c *Ctx) {
 			c.requireGuard("R2-no-input-skipped", fn, Site{w, "WriteLTXFile"}, cmpFact(vLenOf(nil), token.NEQ, vConstInt(0), "len(rdrs) != 0"))
 		}
 		// remote inputs are read through the resumable reader with the listed size
-		for _, nr := range callsTo(fn, nameIs("ls/internal.NewResumableReader")) {
+		for _, nr := range callsToDeep(fn, nameIs("ls/internal.NewResumableReader")) {
 			a := nr.Common().Args
 			item := vResult(isItem, 0)
 			ok := vFieldLoad("FileInfo.Level", item)(a[2]) && vFieldLoad("FileInfo.MinTXID", item)(a[3]) && vFieldLoad("FileInfo.MaxTXID", item)(a[4]) && vFieldLoad("FileInfo.Size", item)(a[5])
